@@ -77,8 +77,17 @@ def eqb(a, b):
 
 
 def is_int_enc(item, n):
-    """item is the minimal signed big-endian encoding of n (at least one byte)"""
-    return len(item) >= 1 and minimal_int_ok(n, item)
+    """item is a signed big-endian encoding of n of at least one byte and at most one byte more than the minimal length (the
+    documentation says "as signed int"; the encoder may spend one extra sign byte where the float log2 inside it rounds up, i.e. for
+    values just below a power of 256^k/2 beyond 2^53 - C10 states the same bound)"""
+    k = len(item)
+    if k < 1:
+        return False
+    val = from_bytes_model(item, 'big', signed=True)
+    conds = [val == n]
+    if k > 2:
+        conds.append(sym_not(sym_and(n >= -(2 ** (8 * (k - 2) - 1)), n < 2 ** (8 * (k - 2) - 1))))
+    return sym_and(*conds)
 
 
 TRUE, FALSE = b'\xff', b'\x00'
@@ -291,13 +300,13 @@ def _divmod_ok(item, a, b, is_div, b_len=None):
             else:
                 want = az % k if k > 0 else -((-az) % (-k))
             cases.append(z3.And(bz == k, vz == want))
-        return sym_and(mk_bool(z3.Or(*cases)), minimal_int_ok(v, item))
+        return sym_and(mk_bool(z3.Or(*cases)), is_int_enc(item, v))
     if is_div:
         r = az - vz * bz
         rel = z3.If(bz > 0, z3.And(r >= 0, r < bz), z3.And(r <= 0, r > bz))
-        return sym_and(mk_bool(rel), minimal_int_ok(v, item))
+        return sym_and(mk_bool(rel), is_int_enc(item, v))
     fl = z3.If(bz > 0, az % bz, -((-az) % (-bz)))
-    return sym_and(mk_bool(vz == fl), minimal_int_ok(v, item))
+    return sym_and(mk_bool(vz == fl), is_int_enc(item, v))
 
 
 # ------------------------------------------------------------------------------ the comparison
